@@ -4,4 +4,6 @@ go 1.22
 
 require go.nanomsg.org/mangos/v3 v3.0.0
 
+require github.com/gorilla/websocket v1.5.3 // indirect
+
 replace go.nanomsg.org/mangos/v3 => /repo
